@@ -23,6 +23,10 @@ func (m *List) Draw(win vaxis.Window) {
 	} else if m.index < m.offset {
 		m.offset = m.index
 	}
+	if m.offset > len(m.items) {
+		// nothing to show (no items and a window without rows)
+		m.offset = len(m.items)
+	}
 
 	defaultStyle := vaxis.Style{}
 	selectedStyle := vaxis.Style{Attribute: vaxis.AttrReverse}
